@@ -97,6 +97,10 @@ def sites(body, prog=None, include_overflow=True):
                 # RangeFull indexing cannot fail
                 if "RangeFull" in idx:
                     continue
+                # constant range / constant index into a fixed-size array, within its length: cannot fail
+                m = re.match(r"^\[.*; (\d+)\]$", base.strip())
+                if m and _const_index_within(ct, int(m.group(1))):
+                    continue
                 out.append(PanicSite(body, i, "index", "%s[%s]" % (_short_ty(base), _short_ty(idx)), "", sp, exp, ct))
                 continue
             if callee in PANICKY_METHODS or resolved in PANICKY_METHODS:
@@ -126,6 +130,38 @@ def sites(body, prog=None, include_overflow=True):
         s.ordinal = seen.get(k, 0)
         seen[k] = s.ordinal + 1
     return out
+
+
+def _const_index_within(ct, n):
+    """the index argument of an Index::index call term is a constant usize < n or a range with constant bounds 0 <= start <= end <= n"""
+    try:
+        arg = ct[2][1]
+    except Exception:
+        return False
+    while isinstance(arg, tuple) and arg and arg[0] in ("ref", "deref", "cast") and len(arg) > 2:
+        arg = arg[2] if arg[0] == "cast" else arg[1]
+
+    def cint(t):
+        return t[2] if isinstance(t, tuple) and len(t) >= 3 and t[0] == "const" and isinstance(t[2], int) else None
+    v = cint(arg)
+    if v is not None:
+        return 0 <= v < n
+    if isinstance(arg, tuple) and arg and arg[0] == "agg" and "ops::range::Range" in str(arg[1]):
+        f = {}
+        for name, t in arg[3]:
+            f[name] = cint(t)
+        kind = str(arg[1]).rsplit("::", 1)[-1]
+        if any(v is None for v in f.values()):
+            return False
+        if kind == "Range":
+            return 0 <= f.get("start", -1) <= f.get("end", -1) <= n
+        if kind == "RangeTo":
+            return 0 <= f.get("end", -1) <= n
+        if kind == "RangeFrom":
+            return 0 <= f.get("start", -1) <= n
+        if kind == "RangeToInclusive":
+            return 0 <= f.get("end", -1) < n
+    return False
 
 
 def _short_ty(t):
